@@ -35,10 +35,32 @@ def concretise(progs, pid, tier, seed, mult, bset=REAL_B, allk=False, kinds=None
                         q["chunks"] = [max(1, n // k)] * k
                         q["eofw"] = rnd.random() < 0.5
                 ops.append(q)
+            ops = fuse_json_close(ops)
             pms = [dict(type=x["type"], n=sz(x["size"], min(B, 4096)), mutate=(rnd.random() < 0.5)) for x in p.get("pms", [])]
             q = dict(id="%s-%s-%d-%d" % (pid, tier[0], i, m), conns=conns, ops=ops, pms=pms,
                      seed=rnd.randrange(1, 1 << 30), fault=None, allk=allk, kinds=kinds or [])
             out.append(q)
+    return out
+
+
+def fuse_json_close(ops):
+    """NextWriter(text); WriteControl(close); Close of the writer, on one connection, is also what a WriteJSON call does whose
+    value's MarshalJSON sends the close: every second occurrence is executed that way (driver op WJC emits the same three events)."""
+    out = []
+    i = 0
+    k = 0
+    while i < len(ops):
+        a = ops[i]
+        if (i + 2 < len(ops) and a["op"] == "NW" and a.get("type") == 1 and ops[i + 1]["op"] == "WC" and ops[i + 1].get("type") == 8
+                and ops[i + 2]["op"] == "CL" and a["c"] == ops[i + 1]["c"] == ops[i + 2]["c"]):
+            k += 1
+            if k % 2 == 1:
+                w = ops[i + 1]
+                out.append(dict(op="WJC", c=a["c"], type=8, n=w["n"], dl=w.get("dl", "zero")))
+                i += 3
+                continue
+        out.append(a)
+        i += 1
     return out
 
 
